@@ -104,7 +104,7 @@ pub fn byte_accounting(cx: &mut Ctx, rule: &str) {
     match lexer_method(&lx, "new") {
         None => cx.anchor_missing(rule, "Lexer::new"),
         Some(m) => {
-            let t = sm::tsc(&m.block);
+            let t = sm::tsx(&m.block);
             let mut probs = vec![];
             if !t.contains("location:start,") {
                 probs.push("location is not seeded with the `start` parameter".to_string());
@@ -178,7 +178,7 @@ pub fn byte_accounting(cx: &mut Ctx, rule: &str) {
     }
     // get_pos returns location
     match lexer_method(&lx, "get_pos") {
-        Some(m) if sm::tsc(&m.block) == "{self.location}" => cx.ok(rule, "get_pos() = self.location"),
+        Some(m) if sm::tsx(&m.block) == "{self.location}" => cx.ok(rule, "get_pos() = self.location"),
         Some(m) => cx.fail(rule, &format!("{}/get_pos", rule), &lx.loc(m), "get_pos does not return self.location"),
         None => cx.anchor_missing(rule, "Lexer::get_pos"),
     }
@@ -216,7 +216,7 @@ fn next_char_paths(m: &syn::ImplItemFn) -> Result<Vec<NcPath>, String> {
                 var = ids[0].clone();
             }
             syn::Stmt::Expr(e, _) => {
-                let t = sm::tsc(e);
+                let t = sm::tsx(e);
                 if t == "self.window.slide()" {
                     if matched {
                         for p in paths.iter_mut() {
@@ -277,7 +277,7 @@ fn nc_step(paths: Vec<NcPath>, s: &syn::Stmt, var: &str) -> Result<Vec<NcPath>, 
     let mut out = vec![];
     match s {
         syn::Stmt::Expr(e, _) => {
-            let t = sm::tsc(e);
+            let t = sm::tsx(e);
             if t == "self.window.slide()" {
                 for mut p in paths {
                     p.slides += 1;
@@ -435,7 +435,7 @@ pub fn lex_fn_ranges(cx: &mut Ctx, rule: &str) {
                                 probs.push(format!("`{}` consumes input between taking the end `{}` and building the range", c.1, e));
                             }
                             // (in a `loop` the textual order says nothing about execution order)
-                            let in_loop_fn = sm::tsc(&f.block).contains("loop{");
+                            let in_loop_fn = sm::tsx(&f.block).contains("loop{");
                             if !cons.iter().any(|c| c.0 < ep) && fname != "lex_number_radix" && !in_loop_fn {
                                 probs.push(format!("end `{}` is taken before anything was consumed", e));
                             }
@@ -455,7 +455,7 @@ pub fn lex_fn_ranges(cx: &mut Ctx, rule: &str) {
     }
     // lex_number: start_pos taken first; passed to lex_number_radix
     if let Some(f) = lexer_method(&lx, "lex_number") {
-        let t = sm::tsc(&f.block);
+        let t = sm::tsx(&f.block);
         let first_is_start = matches!(f.block.stmts.first(), Some(syn::Stmt::Local(l)) if sm::tsc(l).starts_with("letstart_pos=self.get_pos()"));
         let calls = t.matches("self.lex_number_radix(start_pos,").count();
         if first_is_start && calls == 3 {
@@ -468,7 +468,7 @@ pub fn lex_fn_ranges(cx: &mut Ctx, rule: &str) {
     }
     // lex_identifier: every consumed char is pushed
     if let Some(f) = lexer_method(&lx, "lex_identifier") {
-        let t = sm::tsc(&f.block);
+        let t = sm::tsx(&f.block);
         if t.contains("whileself.is_identifier_continuation(){name.push(self.next_char().unwrap());}") && t.matches("next_char").count() == 1 {
             cx.ok(rule, "lex_identifier: while is_identifier_continuation() { name.push(next_char().unwrap()) } is the only consumption");
         } else {
@@ -477,7 +477,7 @@ pub fn lex_fn_ranges(cx: &mut Ctx, rule: &str) {
     }
     // lex_string: start before prefix loop; prefix loop count = prefix_len
     if let Some(f) = lexer_method(&lx, "lex_string") {
-        let t = sm::tsc(&f.block);
+        let t = sm::tsx(&f.block);
         if t.starts_with("{letstart_pos=self.get_pos();for_in0..u32::from(kind.prefix_len()){self.next_char();}letquote_char=self.next_char().unwrap();") {
             cx.ok(rule, "lex_string: start_pos first, then prefix_len() prefix characters, then the quote");
         } else {
@@ -641,7 +641,7 @@ fn interp_stmt(s: &syn::Stmt, mut st: TState, res: &mut ArmResult, guard: &Optio
 }
 
 fn interp_expr(e: &syn::Expr, mut st: TState, res: &mut ArmResult, guard: &Option<String>, gated: bool) -> Vec<TState> {
-    let t = sm::tsc(e);
+    let t = sm::tsx(e);
     match e {
         syn::Expr::MethodCall(mc) if sm::tsc(&mc.receiver) == "self" => {
             let m = mc.method.to_string();
@@ -693,7 +693,7 @@ fn interp_expr(e: &syn::Expr, mut st: TState, res: &mut ArmResult, guard: &Optio
                 other => {
                     if other.starts_with("lex_") {
                         st.opaque = true;
-                        res.opaque_calls.push(t.clone());
+                        res.opaque_calls.push(t.text.clone());
                         return vec![st];
                     }
                     res.unrecognised.push(format!("self.{}()", other));
@@ -804,7 +804,7 @@ fn interp_expr(e: &syn::Expr, mut st: TState, res: &mut ArmResult, guard: &Optio
         }
         syn::Expr::Assign(a) if sm::tsc(&a.left) == "self.at_begin_of_line" => vec![st],
         _ => {
-            res.unrecognised.push(t);
+            res.unrecognised.push(t.text);
             vec![st]
         }
     }
@@ -1040,7 +1040,7 @@ pub fn indent_pairing(cx: &mut Ctx, rule: &str) {
         None => cx.anchor_missing(rule, "Lexer::consume_normal"),
     }
     // Indentations invariants
-    let t = sm::tsc(&lx.file);
+    let t = sm::tsx(&lx.file);
     let ok = t.contains("fnis_empty(&self)->bool{self.indent_stack.len()==1}")
         && t.contains("fnpop(&mutself)->Option<IndentationLevel>{ifself.is_empty(){returnNone;}self.indent_stack.pop()}")
         && t.contains("indent_stack:vec![IndentationLevel::default()]");
@@ -1202,7 +1202,7 @@ pub fn pending_fifo(cx: &mut Ctx, rule: &str) {
         }
         None => cx.anchor_missing(rule, "Lexer::inner_next"),
     }
-    let all = sm::tsc(&lx.file);
+    let all = sm::tsx(&lx.file);
     let n = all.matches(".pending").count();
     // new(): `pending: Vec::with_capacity(5)` is a field init (no dot); uses: push, is_empty, remove
     if n == 3 {
@@ -1260,7 +1260,7 @@ pub fn indentation_counters(cx: &mut Ctx, rule: &str) {
             cx.fail(rule, &key, &lx.loc(&arm.pat), &format!("arm {} is `{}`: counters are not (incremented once per consumed indentation character | reset to 0) as in the sibling arms", pat, stmts.join(" ")));
         }
     }
-    let t = sm::tsc(&f.block);
+    let t = sm::tsx(&f.block);
     if t.starts_with("{letmutspaces:u32=0;letmuttabs:u32=0;loop{") && t.ends_with("Ok(IndentationLevel{tabs,spaces})}") {
         cx.ok(rule, "counters start at 0 and are returned as IndentationLevel { tabs, spaces }");
     } else {
